@@ -18,6 +18,7 @@
 #include <functional>
 #include <algorithm>
 #include <deque>
+#include <unistd.h>
 #include "symfloat.h"
 sym::Engine sym::E;
 
@@ -195,10 +196,13 @@ static std::string model_json(z3::model &m) {
     return o + "}";
 }
 static long g_viol = 0;
+static std::vector<z3::expr> g_conds;      // every condition checked on the current path (their disjunction must be unsat with the path condition)
+static std::string g_dump_dir; static long g_dump_every = 0, g_dumped = 0;
 static std::map<std::string, long> g_viol_kinds;
 static void report(const std::string &kind, const std::string &detail, const z3::expr &cond) {
     // cond: pc & cond satisfiable => violation; print a witness
     z3::model *m = nullptr;
+    g_conds.push_back(cond);
     if (!E.sat_with(cond, &m)) return;
     g_viol++; long k = ++g_viol_kinds[kind];
     if (k <= 3) std::cout << "{\"type\":\"violation\",\"kind\":\"" << kind << "\",\"detail\":\"" << json_escape(detail) << "\",\"model\":" << model_json(*m) << "}\n";
@@ -212,6 +216,7 @@ int main(int argc, char **argv) {
     for (int i = 2; i + 1 < argc; i += 2) {
         std::string k = argv[i];
         if (k == "--frontier") frontier = atol(argv[i + 1]); else if (k == "--start") start_file = argv[i + 1];
+        else if (k == "--dump-dir") g_dump_dir = argv[i + 1]; else if (k == "--dump-every") g_dump_every = atol(argv[i + 1]);
         else if (k == "--max-paths") max_paths = atol(argv[i + 1]); else if (k == "--max-seconds") max_seconds = atof(argv[i + 1]);
         else { std::cerr << "bad option " << k << "\n"; return 3; }
     }
@@ -257,6 +262,8 @@ int main(int argc, char **argv) {
         for (size_t i = E.prefix.size(); i < E.trace.size(); i++) if (E.both[i]) { std::vector<int> p(E.trace.begin(), E.trace.begin() + i); p.push_back(!E.trace[i]); work.push_back(p); }
         if (ab == 1) { aborted++; continue; } if (ab == 2) { notmine++; continue; } if (ab == 3) { unsupported++; continue; }
         paths++;
+        g_conds.clear();
+        long viol_before = g_viol;
         try {
         // ---------------- assertions on this path
         if (status == 0) parsed++; else failed++;
@@ -322,6 +329,17 @@ int main(int argc, char **argv) {
                 std::cout << "],\"model\":" << model_json(*m) << "}\n";
                 delete m;
             }
+        }
+        if (!g_dump_dir.empty() && g_dump_every > 0 && paths % g_dump_every == 0 && g_viol == viol_before && !g_conds.empty() && g_dumped < 40) {
+            // second-solver cross-check: path condition & (some checked condition) must be unsatisfiable
+            z3::solver s2(E.ctx);
+            for (auto a : E.solver->assertions()) s2.add(a);
+            z3::expr any = E.ctx.bool_val(false);
+            for (auto &c : g_conds) any = any || c;
+            s2.add(any);
+            std::ofstream out(g_dump_dir + "/q_" + std::to_string((long)getpid()) + "_" + std::to_string(paths) + ".smt2");
+            out << "(set-logic ALL)\n" << s2.to_smt2() ;
+            g_dumped++;
         }
         } catch (sym::Abort &a) { unsupported++; }
     }
